@@ -120,9 +120,9 @@ def table():
             if c["caught"]:
                 rs = c.get("replay_summary") or {}
                 how = "%s: %s%s" % (pid, rs.get("kind") or "", " (no-failing-input-found)" if c["no_failing_input_found"] else "")
-        rows.append("| %s | %s | %s | %s | %s |" % (os.path.basename(d), m["property"], m.get("summary", "").replace("|", "/")[:110],
-                                                  "caught" if r.get("caught") else ("missed" if r else "not run"), how))
-    print("| seeded change | property | what | result | how |\n|---|---|---|---|---|")
+        rows.append("| %s | %s | %s | %s | %s | %s |" % (os.path.basename(d), m["property"], m.get("summary", "").replace("|", "/")[:110],
+                                                  "caught" if r.get("caught") else ("missed" if r else "not run"), how, m.get("note", "").replace("|", "/")))
+    print("| seeded change | property | what | result | how | history |\n|---|---|---|---|---|---|")
     print("\n".join(rows))
 
 
